@@ -78,15 +78,6 @@ impl<'buf> ProcessMemory<'buf> {
         }
     }
 
-    /// Calculates the absolute address of the specified relative address
-    #[inline]
-    fn absolute(&self, addr: u64) -> u64 {
-        let Self::Process(pr) = self else {
-            return addr;
-        };
-        addr.checked_sub(pr.start_address).unwrap_or(addr)
-    }
-
     #[inline]
     fn is_process_memory(&self) -> bool {
         matches!(self, Self::Process(_))
@@ -98,6 +89,18 @@ fn is_executable_section(header: &elf::SectionHeader) -> bool {
     header.sh_type == elf::section_header::SHT_PROGBITS
         && header.sh_flags & u64::from(elf::section_header::SHF_ALLOC) != 0
         && header.sh_flags & u64::from(elf::section_header::SHF_EXECINSTR) != 0
+}
+
+/// The virtual address the start of a loaded image corresponds to: the page of the lowest
+/// loadable segment. Zero for shared objects and position-independent executables as linkers
+/// produce them, the link address for other executables.
+fn image_base(program_headers: &[elf::ProgramHeader]) -> u64 {
+    program_headers
+        .iter()
+        .filter(|h| h.p_type == elf::program_header::PT_LOAD)
+        .map(|h| h.p_vaddr & !0xfff)
+        .min()
+        .unwrap_or(0)
 }
 
 /// Return bytes to use as a build id, computed by hashing the given data.
@@ -282,7 +285,7 @@ impl<'buf> ModuleReader<'buf> {
             .find(|h| h.p_type == elf::program_header::PT_DYNAMIC)
             .ok_or(Error::NoDynamicSection)?;
 
-        let dynamic_section = self.read_segment(dynamic_segment_header)?;
+        let dynamic_section = self.read_segment(&program_headers, dynamic_segment_header)?;
 
         let mut soname_strtab_offset = None;
         let mut strtab_addr = None;
@@ -301,9 +304,9 @@ impl<'buf> ModuleReader<'buf> {
             (None, _, _) | (_, None, _) => Err(Error::NoDynStrSection),
             (_, _, None) => Err(Error::NoSoNameEntry),
             (Some(addr), Some(size), Some(offset)) => {
-                // If loaded in memory, the address will be altered to be absolute.
                 if offset < size {
-                    self.read_name_from_strtab(self.module_memory.absolute(addr), size, offset)
+                    let strtab = self.locate_strtab(&program_headers, addr);
+                    self.read_name_from_strtab(strtab, size, offset)
                 } else {
                     log::warn!("soname strtab offset ({offset}) exceeds strtab size ({size})");
                     Err(Error::NoSoNameEntry)
@@ -333,18 +336,19 @@ impl<'buf> ModuleReader<'buf> {
                 .ok_or(Error::NoDynStrSection)?,
             };
 
-        let dynamic_section = self.module_memory.read(
-            self.section_offset(dynamic_section_header),
-            dynamic_section_header.sh_size,
-        )?;
+        let dynamic_offset = self.section_offset(dynamic_section_header);
+        let dynamic_section = self
+            .module_memory
+            .read(dynamic_offset, dynamic_section_header.sh_size)?;
 
         for dyn_ in DynIter::new(&dynamic_section, self.context) {
             let dyn_ = dyn_?;
             if dyn_.d_tag == elf::dynamic::DT_SONAME {
                 let name_offset = dyn_.d_val;
                 if name_offset < dynstr_section_header.sh_size {
+                    let dynstr_offset = self.section_offset(dynstr_section_header);
                     return self.read_name_from_strtab(
-                        self.section_offset(dynstr_section_header),
+                        dynstr_offset,
                         dynstr_section_header.sh_size,
                         name_offset,
                     );
@@ -363,13 +367,12 @@ impl<'buf> ModuleReader<'buf> {
     /// Read the build id from a program header note.
     pub fn build_id_from_program_headers(&mut self) -> Result<Vec<u8>, Error> {
         let program_headers = self.read_program_headers()?;
-        for header in program_headers {
+        for header in program_headers.clone() {
             if header.p_type != elf::program_header::PT_NOTE {
                 continue;
             }
-            if let Ok(Some(result)) =
-                self.find_build_id_note(header.p_offset, header.p_filesz, header.p_align)
-            {
+            let (offset, size) = self.segment_location(&program_headers, &header);
+            if let Ok(Some(result)) = self.find_build_id_note(offset, size, header.p_align) {
                 return Ok(result);
             }
         }
@@ -388,7 +391,8 @@ impl<'buf> ModuleReader<'buf> {
         )?
         .ok_or(Error::NoSectionNote)?;
 
-        match self.find_build_id_note(header.sh_offset, header.sh_size, header.sh_addralign) {
+        let offset = self.section_offset(header);
+        match self.find_build_id_note(offset, header.sh_size, header.sh_addralign) {
             Ok(Some(v)) => Ok(v),
             Ok(None) => Err(Error::NoSectionNote),
             Err(e) => Err(e),
@@ -407,18 +411,58 @@ impl<'buf> ModuleReader<'buf> {
 
         // Take at most one page of the text section (we assume page size is 4096 bytes).
         let len = std::cmp::min(4096, text_header.sh_size);
-        let text_data = self.module_memory.read(text_header.sh_offset, len)?;
+        let offset = self.section_offset(&text_header);
+        let text_data = self.module_memory.read(offset, len)?;
         Ok(build_id_from_bytes(&text_data))
     }
 
-    fn read_segment(&mut self, header: &elf::ProgramHeader) -> Result<Buf<'buf>, Error> {
-        let (offset, size) = if self.module_memory.is_process_memory() {
-            (header.p_vaddr, header.p_memsz)
+    /// Where the contents of a segment are found, relative to the start of the module: a loaded
+    /// image is laid out by virtual address (counted from the address the image was linked at),
+    /// a file by file offset.
+    fn segment_location(
+        &self,
+        program_headers: &[elf::ProgramHeader],
+        header: &elf::ProgramHeader,
+    ) -> (u64, u64) {
+        if self.module_memory.is_process_memory() {
+            (
+                header.p_vaddr.wrapping_sub(image_base(program_headers)),
+                header.p_memsz,
+            )
         } else {
             (header.p_offset, header.p_filesz)
-        };
+        }
+    }
 
+    fn read_segment(
+        &mut self,
+        program_headers: &[elf::ProgramHeader],
+        header: &elf::ProgramHeader,
+    ) -> Result<Buf<'buf>, Error> {
+        let (offset, size) = self.segment_location(program_headers, header);
         self.module_memory.read(offset, size)
+    }
+
+    /// Where the dynamic string table is found, relative to the start of the module, given the
+    /// value of `DT_STRTAB` (a virtual address).
+    fn locate_strtab(&self, program_headers: &[elf::ProgramHeader], addr: u64) -> u64 {
+        if let ProcessMemory::Process(pr) = &self.module_memory {
+            // The dynamic linker may have replaced the value by the absolute address.
+            if addr >= pr.start_address {
+                return addr - pr.start_address;
+            }
+            return addr.wrapping_sub(image_base(program_headers));
+        }
+        // In a file the table is at the file offset of the loadable segment that contains it;
+        // post-link tools move it to segments whose address differs from their offset.
+        program_headers
+            .iter()
+            .find(|h| {
+                h.p_type == elf::program_header::PT_LOAD
+                    && addr >= h.p_vaddr
+                    && addr - h.p_vaddr < h.p_filesz
+            })
+            .map_or(addr, |h| h.p_offset.wrapping_add(addr - h.p_vaddr))
     }
 
     fn read_name_from_strtab(
@@ -442,9 +486,14 @@ impl<'buf> ModuleReader<'buf> {
             .map_err(|_| Error::StrTabNoNulByte)
     }
 
-    fn section_offset(&self, header: &elf::SectionHeader) -> u64 {
+    /// Where the contents of a section are found, relative to the start of the module (see
+    /// `segment_location`).
+    fn section_offset(&mut self, header: &elf::SectionHeader) -> u64 {
         if self.module_memory.is_process_memory() {
-            header.sh_addr
+            let base = self
+                .read_program_headers()
+                .map_or(0, |headers| image_base(&headers));
+            header.sh_addr.wrapping_sub(base)
         } else {
             header.sh_offset
         }
